@@ -10,7 +10,14 @@ import Qwt.Proofs.BinWMNew
 /-! Buffer sizes established by the constructors (C14, C16): the size hypotheses of
 `Qwt/Proofs/Space.lean` (`RSQSize`, `RSWSize`, `selectSamples.size = 4 / 2`) derived from the
 construction invariants, by forward reasoning over the construction paths
-(`x >>= f = .ok b → ∃ a, x = .ok a ∧ f a = .ok b`). -/
+(`x >>= f = .ok b → ∃ a, x = .ok a ∧ f a = .ok b`).
+
+The select sampling periods (`rsqSelectNumSamples`, `narrow*PerHint`, `wide*PerHint`) and the
+sample shift of the prefetch support are extracted from the crate; the size facts are stated
+with the extracted NAMES (`RSQSizeP`: `n / rsqSelectNumSamples + 8` sample entries, `RSWSize'`:
+`n / widePer + 5`), and the numeric bounds use only the side conditions of section
+"side conditions" below (`4096 ≤ rsqSelectNumSamples`, `4096 ≤ widePer`, `1024 ≤ narrowPer`),
+decided on the extracted values: a larger period only makes the structures smaller. -/
 set_option linter.unusedVariables false
 
 namespace Qwt.SpaceSizes
@@ -41,6 +48,62 @@ theorem foldlM_inv {σ α : Type} (P : Nat → σ → Prop) (f : σ → α → M
     have := ih (k + 1) st1 st' (hstep k st a st1 hP h1) h2
     rw [List.length_cons, show k + (l.length + 1) = k + 1 + l.length by omega]
     exact this
+
+/-! ### division by a variable period -/
+
+theorem div_add_div_le (a b P : Nat) (hP : 0 < P) : a / P + b / P ≤ (a + b) / P := by
+  rw [Nat.le_div_iff_mul_le hP, Nat.add_mul]
+  exact Nat.add_le_add (Nat.div_mul_le_self a P) (Nat.div_mul_le_self b P)
+
+/-- `⌈k/P⌉ ≤ ⌊k/P⌋ + 1` -/
+theorem ceil_le_succ (k P : Nat) (hP : 0 < P) : (k + P - 1) / P ≤ k / P + 1 := by
+  rw [← Nat.add_div_right k hP]
+  exact Nat.div_le_div_right (by omega)
+
+/-! ### side conditions on the extracted sampling periods
+
+Everything below uses the extracted constants only through these facts. -/
+
+section side
+open Qwt.Extracted
+
+/-- `RSSupportPlain`: one select sample per `rsqSelectNumSamples` occurrences -/
+theorem rsqPer_ge : 4096 ≤ rsqSelectNumSamples := by decide
+
+/-- the smaller of the two hint periods of `RSWide` -/
+def widePer : Nat := min wideOnesPerHint wideZerosPerHint
+theorem widePer_ge : 4096 ≤ widePer := by decide
+theorem widePer_le (bit : Bool) : widePer ≤ RSW.per bit := by
+  cases bit
+  · exact Nat.min_le_right _ _
+  · exact Nat.min_le_left _ _
+
+/-- the smaller of the two hint periods of `RSNarrow` -/
+def narrowPer : Nat := min narrowOnesPerHint narrowZerosPerHint
+theorem narrowPer_ge : 1024 ≤ narrowPer := by decide
+theorem narrowPer_le (bit : Bool) : narrowPer ≤ RSN.per bit := by
+  cases bit
+  · exact Nat.min_le_right _ _
+  · exact Nat.min_le_left _ _
+
+/-- the literal values at the time of writing -/
+theorem widePer_8192 (h1 : wideOnesPerHint = 8192) (h0 : wideZerosPerHint = 8192) : widePer = 8192 := by
+  unfold widePer; rw [h1, h0]; rfl
+theorem narrowPer_1024 (h1 : narrowOnesPerHint = 1024) (h0 : narrowZerosPerHint = 1024) :
+    narrowPer = 1024 := by
+  unfold narrowPer; rw [h1, h0]; rfl
+
+/-- hints of both kinds over `c0 + c1 = m` counted bits: at most `m / P` in total, `P` the
+    smaller period -/
+theorem hints_le {c0 c1 m P0 P1 P : Nat} (hP : 0 < P) (h0 : P ≤ P0) (h1 : P ≤ P1) (hm : c1 + c0 = m) :
+    c0 / P0 + c1 / P1 ≤ m / P := by
+  have a0 := Nat.div_le_div_left (a := c0) h0 hP
+  have a1 := Nat.div_le_div_left (a := c1) h1 hP
+  have := div_add_div_le c0 c1 P hP
+  rw [← hm, Nat.add_comm c1 c0]
+  omega
+
+end side
 
 /-! ### `RSSupportPlain::new`: the sample arrays -/
 
@@ -117,8 +180,20 @@ theorem fromQV_samples4 {dbg : Bool} {B : Nat} {q : QVector} {r : RSQVector}
   rsNew_samples4 (fromQV_rs h).1
 
 /-- number of entries of the sample array of a symbol occurring `k` times: one per started
-    group of 8192 occurrences (at least one), plus the sentinel -/
-def sampLen (k : Nat) : Nat := max 1 ((k + 8191) / 8192) + 1
+    group of `rsqSelectNumSamples` occurrences (at least one), plus the sentinel -/
+def sampLen (k : Nat) : Nat := max 1 ((k + rsqSelectNumSamples - 1) / rsqSelectNumSamples) + 1
+
+/-- the literal form, for the period 8192 -/
+theorem sampLen_8192 (h : rsqSelectNumSamples = 8192) (k : Nat) :
+    sampLen k = max 1 ((k + 8191) / 8192) + 1 := by
+  unfold sampLen; rw [h]; omega
+
+theorem sampLen_le (k : Nat) : sampLen k ≤ k / rsqSelectNumSamples + 2 := by
+  unfold sampLen
+  have h := ceil_le_succ k rsqSelectNumSamples P_pos
+  generalize (k + rsqSelectNumSamples - 1) / rsqSelectNumSamples = a at *
+  generalize k / rsqSelectNumSamples = b at *
+  omega
 
 /-- the sample arrays have exactly the sizes the construction loop gives them -/
 structure RSQSamples (r : RSQVector) (s : List Nat) : Prop where
@@ -139,12 +214,26 @@ theorem fromQV_samples {dbg : Bool} {B : Nat} {q : QVector} {r : RSQVector} {s :
   have hsi := hinv.samples c hc
   have hr : Spec.rank c (s.length + 1) s = s.count c := rank_of_ge c s (by omega)
   generalize (st'.samples.getD c #[]) = L at hsi ⊢
-  have hP : rsqSelectNumSamples = 8192 := rfl
   have h1 := hsi.size_iff L.size
   have h2 := hsi.size_iff (L.size - 1)
-  rw [hr, hP] at h1 h2
-  have hL : L.size = (s.count c + 8191) / 8192 := by omega
+  rw [hr] at h1 h2
   unfold sampLen
+  -- `L.size = ⌈count / P⌉` for every period `P > 0`
+  have hP := P_pos
+  generalize rsqSelectNumSamples = P at *
+  have hL : L.size = (s.count c + P - 1) / P := by
+    symm
+    by_cases h0 : L.size = 0
+    · rw [h0, Nat.zero_mul] at h1
+      have : s.count c = 0 := by omega
+      rw [h0, this, Nat.zero_add]; exact Nat.div_eq_of_lt (by omega)
+    · have e1 : (L.size - 1) * P = P * L.size - P := by
+        rw [Nat.sub_mul, Nat.one_mul, Nat.mul_comm]
+      have e2 : L.size * P = P * L.size := Nat.mul_comm _ _
+      rw [e1] at h2; rw [e2] at h1
+      have hge : P ≤ P * L.size := Nat.le_mul_of_pos_right P (by omega)
+      exact PfsP.div_eq_of (by omega) (by omega)
+  generalize (s.count c + P - 1) / P = q at *
   by_cases h0 : L.size = 0
   · have : L.isEmpty = true := by simpa using h0
     rw [this]; simp only [if_true, Array.size_push]; omega
@@ -178,21 +267,96 @@ theorem count4_le (s : List Nat) : s.count 0 + s.count 1 + s.count 2 + s.count 3
           · subst h3; simp; omega
           · simp [h0, h1, h2, h3]; omega
 
-/-- the three size facts of `RSQSize`, from `Holds`, the support invariant and the sample sizes -/
+/-- sizes of the buffers of a rank/select quad vector over `n` symbols with block size `B`:
+    `Space.RSQSize` with the sampling period of the crate (`rsqSelectNumSamples`, 8192 at the
+    time of writing) in place of the literal -/
+structure RSQSizeP (B n : Nat) (r : RSQVector) : Prop where
+  lines : r.qv.data.size = 4 * ((n + 255) / 256)
+  sbs : r.rs.superblocks.size = 4 * (n / (8 * B) + 1)
+  samples : (r.rs.selectSamples.toList.map Array.size).sum ≤ n / rsqSelectNumSamples + 8
+
+/-- for every period of at least 8192 (in particular the current one) these are the size facts
+    of `Space.RSQSize` -/
+theorem RSQSizeP.toRSQSize {B n : Nat} {r : RSQVector} (h : RSQSizeP B n r)
+    (hP : 8192 ≤ rsqSelectNumSamples) : RSQSize B n r :=
+  ⟨h.lines, h.sbs, Nat.le_trans h.samples
+    (Nat.add_le_add_right (Nat.div_le_div_left hP (by decide)) 8)⟩
+
+theorem RSQSizeP.of_eq {B n : Nat} {r : RSQVector} (h : RSQSizeP B n r)
+    (hP : rsqSelectNumSamples = 8192) : RSQSize B n r :=
+  h.toRSQSize (Nat.le_of_eq hP.symm)
+
+/-- and conversely, for every period of at most 8192 -/
+theorem RSQSizeP.ofRSQSize {B n : Nat} {r : RSQVector} (h : RSQSize B n r)
+    (hP : rsqSelectNumSamples ≤ 8192) : RSQSizeP B n r :=
+  ⟨h.lines, h.sbs, Nat.le_trans h.samples
+    (Nat.add_le_add_right (Nat.div_le_div_left hP P_pos) 8)⟩
+
+/-- the numeric form used by the space bounds: at most `n / 4096 + 8` sample entries -/
+theorem RSQSizeP.samples_le {B n : Nat} {r : RSQVector} (h : RSQSizeP B n r) :
+    (r.rs.selectSamples.toList.map Array.size).sum ≤ n / 4096 + 8 :=
+  Nat.le_trans h.samples (Nat.add_le_add_right (Nat.div_le_div_left rsqPer_ge (by decide)) 8)
+
+theorem rsqP_heap_le (B n : Nat) (r : RSQVector) (h : RSQSizeP B n r) :
+    (rsq r).heap ≤ 64 * ((n + 255) / 256) + 64 * (n / (8 * B) + 1) + 4 * (n / 4096 + 8) := by
+  simp only [rsq, qv, rsSupport, array_foldl_add_eq, h.lines, h.sbs]
+  have := h.samples_le
+  simp only [Nat.zero_add]
+  omega
+
+/-- bits per level, block size 256: `2n·(1 + 1/8 + 1/100)` plus a constant — the bound of
+    `Space.level_bits_256`, for every sampling period `≥ 4096` -/
+theorem rsqP_level_bits_256 (n : Nat) (r : RSQVector) (h : RSQSizeP 256 n r) :
+    800 * ((rsq r).heap + (rsq r).self_) ≤ 227 * n + 260000 := by
+  have := rsqP_heap_le 256 n r h
+  simp only [rsq] at *
+  omega
+
+/-- bits per level, block size 512: `2n·(1 + 1/16 + 1/100)` plus a constant (with one `n` to
+    spare: `428` instead of the `429` of `Space.level_bits_512`) -/
+theorem rsqP_level_bits_512_428 (n : Nat) (r : RSQVector) (h : RSQSizeP 512 n r) :
+    1600 * ((rsq r).heap + (rsq r).self_) ≤ 428 * n + 520000 := by
+  have := rsqP_heap_le 512 n r h
+  simp only [rsq] at *
+  omega
+
+theorem rsqP_level_bits_512 (n : Nat) (r : RSQVector) (h : RSQSizeP 512 n r) :
+    1600 * ((rsq r).heap + (rsq r).self_) ≤ 429 * n + 520000 := by
+  have := rsqP_level_bits_512_428 n r h
+  omega
+
+/-- the three size facts, from `Holds`, the support invariant and the sample sizes -/
 theorem rsqSize_of {B : Nat} {r : RSQVector} {s : List Nat} (hq : Holds r.qv s) (hrs : RSInv B r.rs s)
-    (hsm : RSQSamples r s) : RSQSize B s.length r := by
+    (hsm : RSQSamples r s) : RSQSizeP B s.length r := by
   refine ⟨hq.size_eq, hrs.sbs_size, ?_⟩
   rw [toList4 _ #[] hsm.size4]
   simp only [List.map_cons, List.map_nil, List.sum_cons, List.sum_nil]
   rw [hsm.len 0 (by omega), hsm.len 1 (by omega), hsm.len 2 (by omega), hsm.len 3 (by omega)]
-  have := count4_le s
-  unfold sampLen
+  have hc := count4_le s
+  have l0 := sampLen_le (s.count 0)
+  have l1 := sampLen_le (s.count 1)
+  have l2 := sampLen_le (s.count 2)
+  have l3 := sampLen_le (s.count 3)
+  have hP := P_pos
+  generalize rsqSelectNumSamples = P at *
+  have d1 := div_add_div_le (s.count 0) (s.count 1) P hP
+  have d2 := div_add_div_le (s.count 0 + s.count 1) (s.count 2) P hP
+  have d3 := div_add_div_le (s.count 0 + s.count 1 + s.count 2) (s.count 3) P hP
+  have d4 := Nat.div_le_div_right (c := P) hc
+  generalize s.count 0 / P = q0 at *
+  generalize s.count 1 / P = q1 at *
+  generalize s.count 2 / P = q2 at *
+  generalize s.count 3 / P = q3 at *
+  generalize (s.count 0 + s.count 1) / P = q01 at *
+  generalize (s.count 0 + s.count 1 + s.count 2) / P = q012 at *
+  generalize (s.count 0 + s.count 1 + s.count 2 + s.count 3) / P = q0123 at *
+  generalize s.length / P = qn at *
   omega
 
 /-- `RSQVector::from` establishes the size facts -/
 theorem fromQV_sizes {dbg : Bool} {B : Nat} {q : QVector} {r : RSQVector} {s : List Nat}
     (hB : B = 256 ∨ B = 512) (hq : Holds q s) (hs : ∀ x ∈ s, x < 4) (hlen : s.length < 2 ^ 43)
-    (h : fromQV dbg B q = .ok r) : RSQSize B s.length r := by
+    (h : fromQV dbg B q = .ok r) : RSQSizeP B s.length r := by
   obtain ⟨r', e', hinv⟩ := fromQV_ok dbg hB hq hs hlen
   rw [h] at e'; cases e'
   exact rsqSize_of hinv.holds hinv.rs (fromQV_samples hB hq hs hlen h)
@@ -211,13 +375,26 @@ theorem C_pair (s : List Bool) (i : Nat) : C true s i + C false s i = i := by
 
 /-- sizes of the buffers of `RSWide` over `n` bits.  The zero counter of the construction loop
     runs over the padded last line, so the two sample arrays hold together up to
-    `⌈n/512⌉·512 / 8192 + 4 ≤ n/8192 + 5` entries (`RSWSize.samples` of `Qwt/Proofs/Space.lean`
-    asks for `2·(n/8192) + 4`, which fails e.g. for 8000 zero bits). -/
+    `⌈n/512⌉·512 / P + 4 ≤ n/P + 5` entries, `P = widePer` the (smaller) hint period — 8192 at
+    the time of writing (`RSWSize.samples` of `Qwt/Proofs/Space.lean` asks for `2·(n/8192) + 4`,
+    which fails e.g. for 8000 zero bits). -/
 structure RSWSize' (n : Nat) (r : RSW.RSWide) : Prop where
   lines : r.bv.data.size = 8 * ((n + 511) / 512)
   sm : r.superblockMetadata.size = (n + 4095) / 4096 + 1
   ssize : r.selectSamples.size = 2
-  samples : (r.selectSamples.toList.map Array.size).sum ≤ n / 8192 + 5
+  samples : (r.selectSamples.toList.map Array.size).sum ≤ n / widePer + 5
+
+/-- the literal form, for the period 8192 -/
+theorem RSWSize'.samples_8192 {n : Nat} {r : RSW.RSWide} (h : RSWSize' n r)
+    (h1 : Extracted.wideOnesPerHint = 8192) (h0 : Extracted.wideZerosPerHint = 8192) :
+    (r.selectSamples.toList.map Array.size).sum ≤ n / 8192 + 5 := by
+  have := h.samples
+  rwa [widePer_8192 h1 h0] at this
+
+/-- the numeric form used by the space bound -/
+theorem RSWSize'.samples_le {n : Nat} {r : RSW.RSWide} (h : RSWSize' n r) :
+    (r.selectSamples.toList.map Array.size).sum ≤ n / 4096 + 5 :=
+  Nat.le_trans h.samples (Nat.add_le_add_right (Nat.div_le_div_left widePer_ge (by decide)) 5)
 
 theorem rsw_sizes' {r : RSW.RSWide} {s : List Bool} (h : RSW.Inv r s) : RSWSize' s.length r := by
   have hl := h.holds.nLines_eq
@@ -232,23 +409,32 @@ theorem rsw_sizes' {r : RSW.RSWide} {s : List Bool} (h : RSW.Inv r s) : RSWSize'
     have a0 := i0.hint_eq
     have a1 := i1.hint_eq
     have hp := C_pair s (512 * nLines r.bv)
-    have p0 : RSW.per false = 8192 := rfl
-    have p1 : RSW.per true = 8192 := rfl
-    rw [p0] at a0; rw [p1] at a1
     rw [hl] at a0 a1 hp
-    generalize C false s (512 * ((s.length + 511) / 512)) = c0 at *
-    generalize C true s (512 * ((s.length + 511) / 512)) = c1 at *
+    -- `c0 / P0 + c1 / P1 ≤ (padded length) / P ≤ (n + P) / P = n / P + 1`
+    have hP : 0 < widePer := Nat.lt_of_lt_of_le (by decide) widePer_ge
+    have hh := hints_le hP (widePer_le false) (widePer_le true) hp
+    have hpad : 512 * ((s.length + 511) / 512) ≤ s.length + widePer := by
+      have := widePer_ge; omega
+    have hd := Nat.div_le_div_right (c := widePer) hpad
+    rw [Nat.add_div_right _ hP] at hd
+    rw [a0, a1]
+    generalize C false s (512 * ((s.length + 511) / 512)) / RSW.per false = q0 at *
+    generalize C true s (512 * ((s.length + 511) / 512)) / RSW.per true = q1 at *
+    generalize 512 * ((s.length + 511) / 512) / widePer = qm at *
+    generalize s.length / widePer = qn at *
     omega
 
-/-- bits per level of the binary tree from the corrected size facts: same bound as `rsw_bits` -/
+/-- bits per level of the binary tree from the corrected size facts: same bound as `rsw_bits`,
+    for every hint period `≥ 4096` -/
 theorem rsw_bits' (n : Nat) (r : RSW.RSWide) (h : RSWSize' n r) :
     512 * ((rsw r).heap + (rsw r).self_) ≤ 67 * n + 384000 := by
   simp only [rsw, bv, array_foldl_add_eq, h.lines, h.sm]
-  have := h.samples
+  have := h.samples_le
   simp only [Nat.zero_add]
   omega
 
-/-- sizes of the buffers of `RSNarrow` over `m` bits -/
+/-- sizes of the buffers of `RSNarrow` over `m` bits (the bound on the samples holds for every
+    hint period `≥ 1024`) -/
 structure RSNSize (m : Nat) (r : RSN.RSNarrow) : Prop where
   lines : r.bv.data.size = 8 * ((m + 511) / 512)
   brp : r.blockRankPairs.size ≤ 2 * ((m + 511) / 512) + 4
@@ -268,12 +454,15 @@ theorem rsn_sizes {r : RSN.RSNarrow} {s : List Bool} (h : RSN.Inv r s) : RSNSize
     have a0 := i0.hint_eq
     have a1 := i1.hint_eq
     have hp := C_pair s (64 * (8 * nLines r.bv))
-    have p0 : RSN.per false = 1024 := rfl
-    have p1 : RSN.per true = 1024 := rfl
-    rw [p0] at a0; rw [p1] at a1
     rw [hl] at a0 a1 hp
-    generalize C false s (64 * (8 * ((s.length + 511) / 512))) = c0 at *
-    generalize C true s (64 * (8 * ((s.length + 511) / 512))) = c1 at *
+    -- `c0 / P0 + c1 / P1 ≤ (padded length) / P ≤ (padded length) / 1024`, for periods `≥ 1024`
+    have hP : 0 < narrowPer := Nat.lt_of_lt_of_le (by decide) narrowPer_ge
+    have hh := hints_le hP (narrowPer_le false) (narrowPer_le true) hp
+    have hd := Nat.div_le_div_left (a := 64 * (8 * ((s.length + 511) / 512))) narrowPer_ge (by decide)
+    rw [a0, a1]
+    generalize C false s (64 * (8 * ((s.length + 511) / 512))) / RSN.per false = q0 at *
+    generalize C true s (64 * (8 * ((s.length + 511) / 512))) / RSN.per true = q1 at *
+    generalize 64 * (8 * ((s.length + 511) / 512)) / narrowPer = qm at *
     omega
 
 /-- heap bytes of one `RSNarrow` over `m` bits: `84·⌈m/512⌉ + 64` -/
@@ -340,7 +529,7 @@ section qwt
 open Qwt.QWTree Qwt.RSQ Qwt.PfsP Qwt.WM Qwt.QV
 
 /-- sizes of the sampling structure of a level over `n` symbols: four `RSNarrow` over
-    `nbOf n = ⌈(n-1)/2048⌉ + 1` bits each -/
+    `nbOf n = ⌈(n-1)/rate⌉ + 1` bits each (`rate = 2 ^ pfsSampleShift`) -/
 structure PfsSize (n : Nat) (p : PFS.PrefetchSupport) : Prop where
   size : p.samples.size = 4
   rsn : ∀ r ∈ p.samples.toList, RSNSize (nbOf n) r
@@ -416,7 +605,7 @@ theorem mem_push {α : Type} {a : Array α} {x y : α} (h : y ∈ (a.push x).toL
 structure QInv (c : Cfg) (n k : Nat) (st : LevelSt) : Prop where
   seq : st.seq.size = n
   qsz : st.qvs.size = k
-  qv : ∀ r ∈ st.qvs.toList, RSQSize c.B n r ∧ r.rs.selectSamples.size = 4
+  qv : ∀ r ∈ st.qvs.toList, RSQSizeP c.B n r ∧ r.rs.selectSamples.size = 4
   psz : c.pfs = true → st.pfs.size = k
   pf : ∀ p ∈ st.pfs.toList, PfsSize n p
 
@@ -492,7 +681,7 @@ theorem levelStep_sizes (c : Cfg) (hB : c.B = 256 ∨ c.B = 512) {n : Nat} (hn :
 structure QSizes (c : Cfg) (S : List Nat) (t : QWT) : Prop where
   qsz : t.qvs.size = nLevelsOf (Spec.maxNat S)
   nLevels : S ≠ [] → t.nLevels = nLevelsOf (Spec.maxNat S)
-  qv : ∀ r ∈ t.qvs.toList, RSQSize c.B S.length r
+  qv : ∀ r ∈ t.qvs.toList, RSQSizeP c.B S.length r
   samples4 : ∀ r ∈ t.qvs.toList, r.rs.selectSamples.size = 4
   pfs_none : c.pfs = false ∨ S = [] → t.pfs = none
   pfs_some : c.pfs = true → S ≠ [] → ∃ a, t.pfs = some a ∧ a.size = nLevelsOf (Spec.maxNat S) ∧
